@@ -263,6 +263,14 @@ func (x *Exec) oblige(st *State, kind, label string, goal *Term, desc string, po
 	if st.dead {
 		return
 	}
+	if goal == nil {
+		panic("nil goal for obligation " + kind + ":" + label)
+	}
+	for i, h := range st.pc {
+		if h == nil {
+			panic(fmt.Sprintf("nil hypothesis #%d at obligation %s:%s", i, kind, label))
+		}
+	}
 	// a conjunction is discharged conjunct by conjunct (smaller queries); the pieces keep the obligation's name
 	if goal.Op == "and" && len(goal.Bound) == 0 && len(goal.Args) > 1 && kind != "cover" {
 		for _, g := range goal.Args {
